@@ -37,6 +37,9 @@ def main():
         if isinstance(demo_cmd, list):
             demo_cmd = " && ".join(demo_cmd)
         demo_cmd = demo_cmd.replace("/tmp/wt/%s/target" % pid, TARGET)
+        import re
+        demo_cmd = re.sub(r"git apply [^&;]*(&&|;)\s*", "", demo_cmd)
+        demo_cmd = re.sub(r"cd /tmp/wt/%s\s*(&&|;)\s*" % pid, "", demo_cmd)
         sh("git checkout -- . && git clean -fdq -e _out -e Cargo.lock -e target", W)
         res = {"at": time.strftime("%Y-%m-%dT%H:%M:%S")}
         rc, o = sh("git apply %s/patch.diff" % out, W)
